@@ -60,6 +60,8 @@ var (
 	decExpRe = regexp.MustCompile(`^[+-]?[0-9]+(\.[0-9]+)?[eE][+-]?[0-9]{1,3}$`)
 	// digits missing on one side of the period: numerically unambiguous, not in the RFC grammar: open.
 	decLooseRe = regexp.MustCompile(`^[+-]?(\.[0-9]+|[0-9]+\.)([eE][+-]?[0-9]{1,3})?$`)
+	// canonical-ish decimal64: no plus sign, no superfluous leading zeros
+	canonDecRe = regexp.MustCompile(`^-?(0|[1-9][0-9]*)(\.[0-9]+)?$`)
 	// RFC 4648 section 4 alphabet with mandatory padding.
 	b64Re = regexp.MustCompile(`^([A-Za-z0-9+/]{4})*([A-Za-z0-9+/]{2}==|[A-Za-z0-9+/]{3}=)?$`)
 )
@@ -182,11 +184,13 @@ func denoteJSON(lt *model.LType, raw interface{}) verdict {
 			return mustReject("malformed int64/uint64 string")
 		}
 		x, _ := new(big.Int).SetString(strings.TrimPrefix(s, "+"), 10)
-		why := "canonical"
 		if strings.HasPrefix(s, "+") || (len(strings.TrimLeft(s, "+-")) > 1 && strings.TrimLeft(s, "+-")[0] == '0') || s == "-0" {
-			why = "non-canonical (RFC 7950 9.2.1 allows sign and leading zeros)"
+			// a decoder may insist on the canonical form: inside a union a later member may then take the string
+			v := intVerdict(lt, k, x, "non-canonical (RFC 7950 9.2.1 allows sign and leading zeros)")
+			v.tol = true
+			return v
 		}
-		return intVerdict(lt, k, x, why)
+		return intVerdict(lt, k, x, "canonical")
 	case k.Signed() || k.Unsigned():
 		n, ok := raw.(json.Number)
 		if !ok {
@@ -230,6 +234,8 @@ func denoteJSON(lt *model.LType, raw interface{}) verdict {
 		if _, err := model.ParseJSONValue(lt, model.RenderValue(v.val, model.JSONOpts{})); err != nil {
 			v.restr = true
 		}
+		// forms outside the canonical one (sign, leading zeros, exponent, missing digits) may be refused
+		v.tol = !canonDecRe.MatchString(s)
 		return v
 	case model.KStr:
 		s, ok := raw.(string)
